@@ -18,7 +18,7 @@
 //     Where inside P..Q the queue really enqueued the job, and where between a lane's previous f and its next B it really
 //     dequeued one, is NOT observable and is not guessed: the acceptance check treats those two steps as internal.
 //     The job closure may be copied or moved any number of times by the queue; `copies` is a statistic, no verdict uses it.
-//   proc <lanes> <cancel_us> <base> <job>...
+//   proc <lanes|serial> <cancel_us> <base> <job>...            (serial: createSerialQueue)
 //       cancel_us: -1 never; -2 cancel before any job is added; n>=0: n us after every job reported processStarted;
 //                  n+m: as n, and the queue is destroyed m us after cancelAllJobs() returned WITHOUT waiting for the
 //                  completion callbacks first (the destructor has to get the children killed and reaped by itself);
@@ -26,7 +26,10 @@
 //                  with hung=1 and the children's process groups are SIGKILLed so that the queue can be destroyed)
 //                  the answer then ends with destroy_ms=<time from cancelAllJobs() returning to the destructor returning>
 //       base: "environ" (pass nullptr) or a list field of raw "K=V" entries
-//       job = <inherit><control><interruptible>:<reqenv>:<argv>      reqenv = khex=vhex;... or "."   argv = list field
+//       job = <inherit><control><interruptible>[<free>]:<reqenv>:<argv>      reqenv = khex=vhex;... or "."   argv = list field
+//             <free> (one digit): descriptor starvation - just before this launch the job fills the process's descriptor
+//             table (soft RLIMIT_NOFILE lowered to 64, /dev/null opened until EMFILE) leaving exactly <free> free slots,
+//             and releases everything again when executeProcess has returned (the "spawn error" fate: pipe() fails)
 //       -> J<i> cb=<n> status=<name> exit=<raw> pid=<pid> started=<n> finished=<n> spawned=<0|1> len=<n> hash=<fnv1a64> out=<hex|~> err=<hex> cblen=<n> mark=<-|0|1> alive=<0|1>  (joined by " | ")
 //          cblen = number of output bytes that had been delivered when the completion callback ran (must equal len)
 //   pstorm <lanes|serial> <interval_us> <job>...
@@ -56,6 +59,8 @@
 #include <signal.h>
 #include <pthread.h>
 #include <errno.h>
+#include <fcntl.h>
+#include <sys/resource.h>
 
 using namespace llbuild;
 using namespace llbuild::basic;
@@ -271,6 +276,7 @@ struct ProcJob {
   std::string out, err;
   // signal storm / ordering observation
   std::string markFile; int markSeen = -1; long lenAtCb = -1;
+  int starveFree = -1;
   pthread_t thr; std::atomic<bool> thrValid{false}, done{false};
 };
 
@@ -338,6 +344,13 @@ static void runProcs(ProcScenario& sc, int lanes, int cancelUs, const char* cons
       ProcessAttributes attr{pj->interruptible};
       attr.inheritEnvironment = pj->inherit;
       attr.controlEnabled = pj->control;
+      std::vector<int> fillers; struct rlimit oldLim; bool limited = false;
+      if (pj->starveFree >= 0) {
+        if (getrlimit(RLIMIT_NOFILE, &oldLim) == 0) { struct rlimit nl = oldLim; nl.rlim_cur = 64; limited = setrlimit(RLIMIT_NOFILE, &nl) == 0; }
+        fillers.reserve(128);
+        for (;;) { int fd = open("/dev/null", O_RDONLY | O_CLOEXEC); if (fd < 0) break; fillers.push_back(fd); if (fillers.size() > 100000) break; }
+        for (int k = 0; k < pj->starveFree && !fillers.empty(); k++) { close(fillers.back()); fillers.pop_back(); }
+      }
       q->executeProcess(ctx, cmd, env, attr, {[pj, s](ProcessResult r) {
         pj->done = true;
         if (!pj->markFile.empty()) pj->markSeen = access(pj->markFile.c_str(), F_OK) == 0 ? 1 : 0;
@@ -346,8 +359,11 @@ static void runProcs(ProcScenario& sc, int lanes, int cancelUs, const char* cons
         pj->status = (int)r.status; pj->exitCode = r.exitCode;
         if (r.pid != (llbuild_pid_t)-1) pj->pid = (long)r.pid;
         pj->cb++;
-        s->nDone++; s->cv.notify_all();
+        if (pj->cb.load() == 1) s->nDone++;
+        s->cv.notify_all();
       }});
+      for (int fd : fillers) close(fd);
+      if (limited) setrlimit(RLIMIT_NOFILE, &oldLim);
     }));
   }
   if (cancelUs >= 0) {
@@ -414,6 +430,7 @@ static std::string runProcCmd(const SV& a0) {
     a = b;
   }
   if (a.size() < 5) return "ERR args";
+  if (a[1] == "serial") { serial = true; a[1] = "1"; }
   int lanes = atoi(a[1].c_str()), cancelUs = atoi(a[2].c_str()), destroyUs = -1;
   if (a[2].find('+') != std::string::npos) destroyUs = atoi(a[2].substr(a[2].find('+') + 1).c_str());
   SV baseStore; std::vector<const char*> basePtrs; const char* const* base = nullptr;
@@ -421,8 +438,9 @@ static std::string runProcCmd(const SV& a0) {
   ProcScenario sc;
   for (size_t i = 4; i < a.size(); i++) {
     SV f = split(a[i], ':');
-    if ((f.size() != 3 && f.size() != 4) || f[0].size() != 3) return "ERR job " + a[i];
+    if ((f.size() != 3 && f.size() != 4) || (f[0].size() != 3 && f[0].size() != 4)) return "ERR job " + a[i];
     std::unique_ptr<ProcJob> j(new ProcJob);
+    if (f[0].size() == 4) j->starveFree = f[0][3] - '0';
     j->inherit = f[0][0] == '1'; j->control = f[0][1] == '1'; j->interruptible = f[0][2] == '1';
     if (f[1] != ".") for (auto& kv : split(f[1], ';')) { SV p = split(kv, '='); if (p.size() != 2) return "ERR env"; j->env.push_back({unhex(p[0]), unhex(p[1])}); }
     j->argv = unlist(f[2]);
